@@ -7,8 +7,10 @@ the write machinery are allowed to change), and the primitive state functions.
 -/
 namespace Rain.Loop
 
-/-- Configuration hypothesis of `no_panic` (decidable): a piece that has blocks has a non-padding section
-(what `calcBlocks` guarantees: blocks cover exactly the non-padding bytes).  Converse of `CfgWF`. -/
+/-- A piece that has blocks has a non-padding section (what `calcBlocks` guarantees: blocks cover exactly the
+non-padding bytes).  Converse of `CfgWF`.  It was the configuration hypothesis of `no_panic` until stale write
+results were ignored (fix C04-F9); no theorem needs it any more, it is kept because it is proved for the driver's
+configurations (`parseNew_blocksHaveData`). -/
 def Cfg.blocksHaveData (c : Cfg) : Bool :=
   (List.range c.n).all fun i =>
     (c.blocks.getD i []).isEmpty || (c.sections i).any fun sc => !(c.fpads.getD sc.file false)
@@ -28,20 +30,21 @@ theorem Cfg.blocksHaveData_spec (c : Cfg) (h : c.blocksHaveData = true) (i : Nat
 
 /-- The write/download invariant of the event loop. -/
 structure WInv (s : St) : Prop where
-  /-- the configuration hypothesis (constant) -/
-  cfgOK : s.cfg.blocksHaveData = true
   /-- only messages that need the metadata are queued -/
   q : QueueOK s
   /-- a set `Writing` flag belongs to the write in flight, which is of the current generation -/
   wf : s.loaded = true → ∀ i, s.wflag.getD i false = true → ∃ w, s.writing = some w ∧ w.piece = i ∧ w.gen = s.gen
-  /-- the piece being written has a non-padding section (so the writer really calls the storage) -/
-  wb : ∀ w, s.writing = some w →
-    (s.cfg.sections w.piece).filter (fun sc => !(s.cfg.fpads.getD sc.file false)) ≠ []
   /-- a job never comes from the future -/
   wg : ∀ w, s.writing = some w → w.gen ≤ s.gen
   /-- a current job on loaded pieces: no verifier, and its piece is not yet held -/
   wc : ∀ w, s.writing = some w → w.gen = s.gen → s.loaded = true →
     s.verifier = false ∧ bitOf s.bf w.piece = false
+  /-- the `Writing` flags of loaded pieces: one per piece -/
+  wl : s.loaded = true → s.wflag.length = s.n
+  /-- a current job on loaded pieces — in particular one whose storage calls have returned and whose result is
+  held (`written`) — has its piece's `Writing` flag set, and the piece is not done -/
+  wd : ∀ w, s.writing = some w → w.gen = s.gen → s.loaded = true →
+    s.wflag.getD w.piece false = true ∧ s.done.getD w.piece false = false
   /-- bits ⊆ `done` while loaded and not verifying -/
   bd : s.loaded = true → s.verifier = false → ∀ b, s.bf = some b →
     b.length ≤ s.done.length ∧ ∀ i, b.getD i false = true → s.done.getD i false = true
@@ -126,15 +129,16 @@ theorem WFrame.of_lists {s s' : St} (h1 : s'.cfg = s.cfg) (h2 : s'.wflag = s.wfl
   ⟨h1, h2, h3, h4, h5, h6, h7, h8, h9, h10, fun h => Or.inl (h11 ▸ h), h12, h13, h14⟩
 
 theorem WInv.frame {s s' : St} (h : WInv s) (f : WFrame s s') : WInv s' := by
-  refine ⟨by rw [f.cfg]; exact h.cfgOK, ?_, ?_, ?_, ?_, ?_, ?_, ?_, ?_, ?_, ?_⟩
+  refine ⟨?_, ?_, ?_, ?_, ?_, ?_, ?_, ?_, ?_, ?_, ?_⟩
   · intro p' hp' msg hm
     rcases f.q p' hp' msg hm with hn | ⟨p, hp, hm'⟩
     · exact hn
     · exact h.q p hp msg hm'
   · rw [f.loaded, f.wflag, f.writing, f.gen]; exact h.wf
-  · rw [f.writing, f.cfg]; exact h.wb
   · rw [f.writing, f.gen]; exact h.wg
   · rw [f.writing, f.gen, f.loaded, f.verifier, f.bf]; exact h.wc
+  · rw [f.loaded, f.wflag]; unfold St.n; rw [f.cfg]; exact h.wl
+  · rw [f.writing, f.gen, f.loaded, f.wflag, f.done]; exact h.wd
   · rw [f.loaded, f.verifier, f.bf, f.done]; exact h.bd
   · intro d' hd'
     obtain ⟨d, hd, e⟩ := f.dls d' hd'
@@ -237,14 +241,15 @@ theorem mapDl_wframe (s : St) (g : Dl → Dl) (hg : ∀ d, (g d).piece = d.piece
 
 /-! ### the initial state -/
 
-theorem InitLike.winv {s : St} (h : InitLike s) (hc : s.cfg.blocksHaveData = true) (hw : s.writing = none) :
+theorem InitLike.winv {s : St} (h : InitLike s) (hw : ∀ w, s.writing = some w → w.gen ≤ s.gen) :
     WInv s := by
-  refine ⟨hc, ?_, ?_, ?_, ?_, ?_, ?_, ?_, ?_, ?_, ?_⟩
+  refine ⟨?_, ?_, ?_, ?_, ?_, ?_, ?_, ?_, ?_, ?_, ?_⟩
   · intro p hp; rw [h.peers] at hp; cases hp
   · intro hl; rw [h.loaded] at hl; cases hl
-  · intro w hw'; rw [hw] at hw'; cases hw'
-  · intro w hw'; rw [hw] at hw'; cases hw'
-  · intro w hw'; rw [hw] at hw'; cases hw'
+  · exact hw
+  · intro w _ _ hl; rw [h.loaded] at hl; cases hl
+  · intro hl; rw [h.loaded] at hl; cases hl
+  · intro w _ _ hl; rw [h.loaded] at hl; cases hl
   · intro hl; rw [h.loaded] at hl; cases hl
   · intro d hd; rw [h.dls] at hd; cases hd
   · intro hne; exact absurd h.dls hne
